@@ -86,3 +86,41 @@ package session
 //@   modifies everything
 //@   ensures[C19] !s.serviceListMutex.lockw && !s.pollMutex.lockw && s.pollMutex.lockr == 0 && !s.cancelMutex.lockw
 //@   call Services#1: assert[C19] !s.serviceListMutex.lockw && !s.pollMutex.lockw && s.pollMutex.lockr == 0
+
+// Requests for proxies and objects (Proxy, Object, newService, newObject, metaProxy): no lock of the
+// session is held at return; the proxy is built on the pooled connection that client() returned,
+// so that all proxies of an endpoint share it; and a request - failed or not - never closes that
+// shared connection (a Close call site in one of these functions is a failing obligation: only
+// Terminate and the loser of the dial race in client() close connections).
+//@ func (s *Session) newService(info services.ServiceInfo, objectID uint32) (p bus.Proxy, err error)
+//@   tags C19
+//@   requires !s.pollMutex.lockw && s.pollMutex.lockr == 0
+//@   modifies everything
+//@   call metaProxy#1: assert[C19] arg0 == c && arg1 == info.ServiceId && arg2 == objectID && !s.pollMutex.lockw && s.pollMutex.lockr == 0
+//@   call Close#1: assert[C19] false
+//@ func (s *Session) newObject(info services.ServiceInfo, ref object.ObjectReference) (result bus.ObjectProxy, err error)
+//@   tags C19
+//@   requires !s.pollMutex.lockw && s.pollMutex.lockr == 0
+//@   modifies everything
+//@   call NewProxy#1: assert[C19] arg0 == c && arg2 == ref.ServiceID && arg3 == ref.ObjectID && !s.pollMutex.lockw && s.pollMutex.lockr == 0
+//@   ensures[C19] err == nil ==> result != nil
+//@   call Close#1: assert[C19] false
+//@ func metaProxy(c bus.Client, serviceID uint32, objectID uint32) (p bus.Proxy, err error)
+//@   tags C19
+//@   requires c != nil
+//@   modifies everything
+//@   call GetMetaObject#1: assert[C19] arg0 == c && arg1 == serviceID && arg2 == objectID
+//@   call NewProxy#1: assert[C19] arg0 == c && arg2 == serviceID && arg3 == objectID
+//@   call Close#1: assert[C19] false
+//@ func (s *Session) Proxy(name string, objectID uint32) (p bus.Proxy, err error)
+//@   tags C19
+//@   requires !s.serviceListMutex.lockw && !s.pollMutex.lockw && s.pollMutex.lockr == 0
+//@   modifies everything
+//@   call newService#1: assert[C19] arg0.Name == name && arg1 == objectID && !s.serviceListMutex.lockw && !s.pollMutex.lockw && s.pollMutex.lockr == 0
+//@   call Close#1: assert[C19] false
+//@ func (s *Session) Object(ref object.ObjectReference) (o bus.Proxy, err error)
+//@   tags C19
+//@   requires !s.serviceListMutex.lockw && !s.pollMutex.lockw && s.pollMutex.lockr == 0
+//@   modifies everything
+//@   call newObject#1: assert[C19] arg0.ServiceId == ref.ServiceID && !s.serviceListMutex.lockw && !s.pollMutex.lockw && s.pollMutex.lockr == 0
+//@   call Close#1: assert[C19] false
